@@ -92,10 +92,12 @@ PROPS["C04"] = {
     "rule": ("Scenario = one key, lifetimes T in {1..10,60,3600,31536000}, upstream Age absent/0/0..T+2, timed histories with clock advances concentrated on k*T, T+-1s and sub-second offsets, "
              "several refetch epochs. Oracle = interval automaton (served from cache iff elapsed < L, never at elapsed >= L+1, boundary second either; Age within 1s and <= T; version must be the latest fetch). "
              "Non-trivial = a request inside the boundary second or an expired refetch, and at least one hit. "
-             "TestC04SlowWrite (engine N, real clock): lifetime 1-2 s, a store whose write takes 1.7-3 s longer than the lifetime, 1-3 requests arriving 0.1-1.5 s after the first. Oracle: a response served from cache (identified by the X-Serial of the upstream exchange it came from) is never answered T+1.5 s or more after that exchange, and never with Age > T. Requests that arrived before the exchange they were served from (waiters) are the open finding waiter-answer-delayed-by-store-write and excluded, counted."),
+             "TestC04SlowWrite (engine N, real clock): lifetime 1-2 s, a store whose write takes 1.7-3 s longer than the lifetime, 1-3 requests arriving 0.1-1.5 s after the first. Oracle: a response served from cache (identified by the X-Serial of the upstream exchange it came from) is never answered T+1.5 s or more after that exchange, and never with Age > T. Requests that arrived before the exchange they were served from (waiters) are the open finding waiter-answer-delayed-by-store-write and excluded, counted. "
+             "TestC04Location (engine N, real clock): a location adds 's-maxage=T' (T 1-2 s) to an upstream answer with max-age 30..86400; a request T+1.3..T+2.5 s after the first was answered must reach the upstream."),
     "assumptions": _SIM_ASSUME,
     "jobs": [_sim("TestC04", 2000, 60000), _sim("TestC04Store", 400, 15000, qshards=8),
              {"engine": "netw", "test": "TestC04SlowWrite", "quick": {"shards": 6, "checks": 2, "timeout": 400, "shrinktime": "15s"}, "thorough": {"shards": 8, "checks": 30, "timeout": 3400, "shrinktime": "60s"}},
+             {"engine": "netw", "test": "TestC04Location", "quick": {"shards": 6, "checks": 2, "timeout": 400, "shrinktime": "15s"}, "thorough": {"shards": 8, "checks": 25, "timeout": 3400, "shrinktime": "60s"}},
              {"engine": "netw", "test": "TestC04ProbeWaiterSlowWrite", "rapid": False, "probe": True, "quick": {"shards": 1, "timeout": 120}, "thorough": {"shards": 1, "timeout": 120}}],
 }
 PROPS["C06"] = {
@@ -142,9 +144,12 @@ PROPS["C18"] = {
              "Oracle = after a purge returned the next request must reach the upstream (or be answered by a fetch still in flight at purge time), the store holds no record, other caches/keys keep their hits, the purge returns at once. "
              "Non-trivial = purge of a fresh entry followed by a request, or purge during a fetch with a waiter. "
              "TestC18Admin (real sockets): the same purge kinds through the real admin endpoint DELETE /cache?key=&cache= on two servers/caches with keys that need query escaping, "
-             "plus purges issued 120 ms into a 1 s upstream fetch with two waiters (must return before the fetch ends; all three requests must complete correctly)."),
+             "plus purges issued 120 ms into a 1 s upstream fetch with two waiters (must return before the fetch ends; all three requests must complete correctly). "
+             "TestC18Store (engine P): the kill/restart histories of C08 (real badger, 8-entry memory, keys 10-39 whose URIs extend those of keys 1-3, admin purges, a directed fill-both / purge-the-shorter / flush-the-memory / ask-again macro in a third of the cases) judged for 'other keys keep their entries': within one instance, a cacheable key that was fetched and delivered is not fetched again while fresh if only other keys were purged in between."),
     "assumptions": _SIM_ASSUME + ["in the real-socket part a purge counts as blocked only if it took more than 800 ms and returned no earlier than the 1 s fetch completed"],
     "jobs": [_sim("TestC18", 1500, 40000),
+             {"engine": "proc", "needs_pike": True, "test": "TestC18Store", "env": {"VERIF_PORT_BASE": "2000", "VERIF_PORT_SPAN": "400"},
+              "quick": {"shards": 8, "checks": 2, "timeout": 600, "shrinktime": "45s"}, "thorough": {"shards": 16, "checks": 25, "timeout": 3400, "shrinktime": "120s"}},
              {"engine": "netw", "test": "TestC18Admin", "quick": {"shards": 16, "checks": 8, "timeout": 600, "shrinktime": "30s"}, "thorough": {"shards": 16, "checks": 300, "timeout": 3400, "shrinktime": "60s"}}],
 }
 
@@ -172,12 +177,12 @@ PROPS["C12"] = {
     "rule": ("Inputs = byte strings in size classes {0,1,2-64,65-4096,4K-64K,64K-256K (thorough 1 MiB)} x shapes {random, single-byte run, short period, JSON-like text, runs+noise} x levels -1..12. "
              "TestC12Encode: pike's Gzip/Brotli output must be restored by the stdlib gzip reader (clean trailer) / reference brotli reader and by pike's own decoders and Decompress. "
              "TestC12Decode: streams from reference encoders (stdlib gzip, brotli, snappy, zstd, pierrec lz4 fast+HC, an independent hand-written lz4 block encoder and literal-only blocks; ratios up to ~250x) must be restored exactly. "
-             "TestC12Malformed(+Zstd): truncations, bit flips, rotations, hostile length prefixes, random bytes: no panic, no call above 30 s. Thorough adds the native coverage-guided target FuzzC12Decoders (gunzip, br, lz4, snappy; no panic, deterministic result). Non-trivial = size >= 65 or ratio > 10 or level outside 1..9 (encode/decode); >= 4 bytes (malformed)."),
+             "TestC12Malformed(+Zstd): truncations, bit flips, rotations, hostile length prefixes, random bytes: no panic, no call above 300 s, and a valid stream of the same format decoded right afterwards is restored. Thorough adds the native coverage-guided target FuzzC12Decoders (gunzip, br, lz4, snappy; no panic, deterministic result). Non-trivial = size >= 65 or ratio > 10 or level outside 1..9 (encode/decode); >= 4 bytes (malformed)."),
     "assumptions": ["snappy/zstd inputs that announce more than 16 MiB of decoded data are skipped (those libraries allocate the announced size up front; counted under excluded_known)",
                     "the zstd malformed-stream job runs with GOMAXPROCS=1 because pike's ZSTDDecode leaks the decoder's goroutines per call (observation outside the listed properties)"],
     "jobs": [
         {"engine": "unit", "test": "TestC12Encode", "quick": {"shards": 8, "checks": 300, "timeout": 500}, "thorough": {"shards": 16, "checks": 6000, "timeout": 3400}},
-        {"engine": "unit", "test": "TestC12Decode", "quick": {"shards": 8, "checks": 400, "timeout": 500}, "thorough": {"shards": 16, "checks": 8000, "timeout": 3400}},
+        {"engine": "unit", "test": "TestC12Decode", "quick": {"shards": 8, "checks": 400, "timeout": 500}, "thorough": {"shards": 16, "checks": 6000, "timeout": 3400}},
         {"engine": "unit", "test": "TestC12Malformed", "quick": {"shards": 8, "checks": 3000, "timeout": 500}, "thorough": {"shards": 16, "checks": 100000, "timeout": 3400}},
         {"engine": "fuzz", "test": "FuzzC12Decoders", "rapid": False, "fuzz": True, "solo": True, "thorough": {"shards": 1, "fuzztime": "240s", "timeout": 900}},
         {"engine": "unit", "test": "TestC12MalformedZstd", "env": {"GOMAXPROCS": "1"}, "quick": {"shards": 2, "checks": 1000, "timeout": 500}, "thorough": {"shards": 8, "checks": 25000, "timeout": 3400}},
@@ -310,7 +315,7 @@ PROPS["C08"] = {
     "rule": ("TestC08 (real binary, badger store in a temp dir, LRU of 8 entries, 20-40 keys with lifetimes {uncacheable,2,3,4,6,8,30}s, bodies 10/200/3000 bytes, plain or gzip clients): op sequences of single GETs, concurrent bursts over many keys (evict/reload), "
              "purges through the admin API, sleeps up to 3 s, and 1-2 kills: SIGKILL at an op boundary, SIGKILL 0-50 ms into a concurrent burst, SIGTERM (thorough); each followed by a restart on the same directory, then two more sweeps over all keys. "
              "History oracle: a response that did not reach the upstream must be labelled hit, carry the serial (stored header) of a real fetch of the same key, an unaltered body, start less than T+1 s after the latest moment the entry can have been created "
-             "(min(fetching client's completion, kill of that instance)), an Age within the measured bounds (continuing across restarts), never for uncacheable keys, never from a fetch completed before a purge; pike must serve within 12 s after every restart. evaluations = client responses judged. "
+             "(min(fetching client's completion, kill of that instance)), an Age within the measured bounds (continuing across restarts), never for uncacheable keys, never from a fetch completed before a purge; pike must serve within 40 s after every restart. evaluations = client responses judged. "
              "TestC08Sim (bubble, memory store honouring TTL on the virtual clock, LRU 8/16, 10-30 keys forced into 4 shards): evict/reload histories at exact expiry boundaries against the automaton (reload allowed only unchanged, within the original lifetime, Age continuing). "
              "TestC08SlowReload (engine N): the histories of TestC10SlowStore judged for C08 -- a persisted hit or hit-for-pass record that left the one-entry memory is asked for by 2-5 staggered concurrent requests while every store call takes 20-80 ms: each request gets the response (or a refetched one), never an error. "
              "Non-trivial = a hit served from a fetch made by an earlier (killed) instance AND a refetch after expiry (TestC08) / a reload hit (TestC08Sim)."),
